@@ -50,6 +50,8 @@ def case_text(c):
             L.append("%s %d" % (k, c[k]))
     if c.get("perturb"):
         L.append("perturb %d %r %d" % tuple(c["perturb"]))
+    if c.get("stall"):
+        L.append("stall %d %d %d" % tuple(c["stall"]))
     L.append("RUN")
     return "\n".join(L) + "\n"
 
